@@ -3,6 +3,7 @@ package rules
 import (
 	"fmt"
 	"go/token"
+	"go/types"
 	"os"
 	"sort"
 	"strings"
@@ -42,14 +43,14 @@ type d6Key struct {
 type d6Info struct {
 	deferClose map[string]bool // kinds of handles closed by a deferred call (runs at every return)
 	clobbered  bool            // a deferred function literal overwrites the error result unconditionally
-	fn       *ssa.Function
-	events   []fileEv
-	hops     []d6Hop
-	helpers  []*ssa.Call // calls of same-package helpers with file effects
-	setL     *ssa.Call
-	resets   []*ssa.Call // calls that reset the engine's change counter (directly or through a helper)
-	tested   map[*ssa.Call]bool
-	retEvent map[*ssa.Return]*ssa.Call // `return <event call>`
+	fn         *ssa.Function
+	events     []fileEv
+	hops       []d6Hop
+	helpers    []*ssa.Call // calls of same-package helpers with file effects
+	setL       *ssa.Call
+	resets     []*ssa.Call // calls that reset the engine's change counter (directly or through a helper)
+	tested     map[*ssa.Call]bool
+	retEvent   map[*ssa.Return]*ssa.Call // `return <event call>`
 }
 
 type d6Sum struct {
@@ -752,6 +753,56 @@ func ruleD6(w *world.World, r *report.RuleResult) {
 		r.Err = fmt.Errorf("snapshot.Engine.Restore not found")
 		return
 	}
+	// (i) Restore reports success only after it published the restored snapshot's time (LASTSAVE
+	// "reports the time of the snapshot that was restored") and walked the restored state
+	{
+		const (
+			SETL world.Facts = 1 << iota
+			WALK
+		)
+		gen := func(in ssa.Instruction) world.Facts {
+			switch x := in.(type) {
+			case *ssa.Call:
+				if n, ok := fieldFuncCall(x); ok && n == "setLatestSnapshotTimeFunc" && len(x.Call.Args) == 1 &&
+					derivesFrom(x.Call.Args[0], func(v ssa.Value) bool {
+						switch f := v.(type) {
+						case *ssa.FieldAddr:
+							return world.FieldName(f) == "LatestSnapshotMilliseconds"
+						case *ssa.Field:
+							if st, ok := f.X.Type().Underlying().(*types.Struct); ok {
+								return world.CanonField(st.Field(f.Field)) == "LatestSnapshotMilliseconds"
+							}
+						}
+						return false
+					}, 0) {
+					return SETL
+				}
+			case *ssa.Range:
+				return WALK
+			}
+			return 0
+		}
+		must := world.Must(rs, nil, gen, nil)
+		k := 0
+		rname := world.FuncName(rs)
+		for _, ret := range world.Returns(rs) {
+			rv := world.RetVals(ret)
+			if len(rv) != 1 || !world.IsNilConst(rv[0]) {
+				continue
+			}
+			k++
+			key := fmt.Sprintf("%s|i:restore-success-publishes#%d", rname, k)
+			f := world.FactsAt(must, ret, gen, nil)
+			switch {
+			case f&SETL != 0 && f&WALK != 0:
+				r.OK(key, w.InstrPos(ret), "success is reported only after the restored snapshot's time was published and its state applied")
+			case f&WALK == 0:
+				r.Fail(key, w.InstrPos(ret), rname+" can report success without having applied the snapshot's state: the server starts with an empty dataset although a snapshot is on disk, and nothing tells the operator")
+			default:
+				r.Fail(key, w.InstrPos(ret), rname+" can report success without publishing the restored snapshot's time (the LatestSnapshotMilliseconds recorded with it): LASTSAVE does not report the snapshot that was restored")
+			}
+		}
+	}
 	var wm, wst, rm, rst []string
 	c.paths(ts, 0, &wm, &wst)
 	c.paths(rs, 0, &rm, &rst)
@@ -868,7 +919,6 @@ func pathLeaves(v ssa.Value, depth int, out map[string]bool) {
 		out[fmt.Sprintf("%s (%T)", v.Name(), v)] = true
 	}
 }
-
 
 // resetsChangeCounter: the call stores a constant zero into an atomic counter field whose name
 // mentions "change" (changeCount.Store(0)), directly or inside a same-package helper (depth 2).
